@@ -781,7 +781,15 @@ func responseArmRule(c *Ctx) {
 		// "malformed", "late" or otherwise filtered in front of the lookup leaves its call pending for ever)
 		if cc != nil && len(cc.Body) > 0 {
 			rg := ri.Graph()
-			first := rg.VertexOf(cc.Body[0])
+			var firstStmt ast.Stmt = cc.Body[0]
+			for {
+				b, isBlock := firstStmt.(*ast.BlockStmt)
+				if !isBlock || len(b.List) == 0 {
+					break
+				}
+				firstStmt = b.List[0]
+			}
+			first := rg.VertexOf(firstStmt)
 			sv := rg.VertexOf(s.Call)
 			okFirst := first == sv
 			if !okFirst && first >= 0 && sv >= 0 {
